@@ -12,7 +12,7 @@ CLAIMED = {
    design="7/C15"),
  "C14": dict(
    text="Contracts on the real advanceFrame against RFC 6455 5.2-5.5 rule predicates over the ghost input stream: an accepted frame has legal RSV bits and a known opcode, control frames are final and declare at most 125 bytes, data/continuation sequencing follows the message-in-progress flag, the mask bit matches the role, the remaining-bytes counter equals the declared length and is never negative (64-bit lengths with the top bit set are refused), the message length accumulates over fragments without overflow and never passes a configured read limit; every protocol error sends Close 1002 (call-site assertion on WriteControl) and returns an error; the received-close-code table is checked against RFC 7.4.1 for all codes. Message reader and NextReader: a clean end (io.EOF) is reported only by a superseded reader or after the final frame has been read to its last byte - a message cut by the transport, inside a frame or between the frames of a fragmented message, ends with an unexpected-EOF error, never cleanly; bytes are only handed out from the frame in progress; the first read error is sticky (returned again, nothing more taken from the transport, remembered by NextReader); NextReader announces only text/binary messages; both loops terminate (measure: unread input).",
-   note="ASSUMED: user-supplied ping/pong/close handlers do not modify reader state; writes through a slice of the mask-key array field are not tracked; maskBytes (unsafe) and WriteControl are trusted contracts here. The decompressing reader (compress/flate) and the byte CONTENTS delivered by messageReader.Read (unmasking) are not under contract; io.ReadCloser.Close of the previous message's reader is an interface contract (touches that reader only). Trusted: bufio.Reader Peek/Discard stream contracts, govc, go/ssa, solvers.",
+   note="ASSUMED: user-supplied ping/pong/close handlers do not modify reader state; maskBytes (unsafe) and WriteControl are trusted contracts here. The decompressing reader (compress/flate) and the byte CONTENTS delivered by messageReader.Read (unmasking) are not under contract; io.ReadCloser.Close of the previous message's reader is an interface contract (touches that reader only). Trusted: bufio.Reader Peek/Discard stream contracts, govc, go/ssa, solvers.",
    design="7/C14"),
  "C18": dict(
    text="The connection-id counter is declared shared/atomic: every plain read or write of it is a failed obligation (the repaired code goes through sync/atomic); WithContext stores exactly the value returned by the atomic increment (so ids are pairwise distinct); AliasContext returns a context carrying exactly its source's id; every logging entry point (Println/Printf/doPrintln/doPrintf) hands exactly one line to the underlying log.Logger on every path (ghost emission counter), for nil contexts, id-carrying objects and context.Context values; the first thing on that line is the prefix made by fmt.Sprintf from the pid and the id of the context that was passed (context.Context value / object's Cid() / pid only for nil), with fmt.Sprintf and os.Getpid as uninterpreted pure functions.",
@@ -60,7 +60,7 @@ CLAIMED = {
    design="7/C06"),
  "C12": dict(
    text="Contracts on the real NALUHeader/NALU/AVCDecoderConfigurationRecord/AVCSample methods from ISO 14496-10 7.3.1 and ISO 14496-15 5.2.4.1.1: all 256 NAL header bytes, NAL unit round trips for any payload size (lemmas), the six fixed record bytes including reserved bits, SPS count = appended list length, loop invariants and termination measures, frame conditions, panic-freedom of all decoders - all unbounded. List-level round trips (2 SPS + 1 PPS; 2-NALU samples for each length size, children of any size) are bounded stand-ins run in the thorough tier.",
-   note="Trusted: govc, go/ssa, solvers; bytes.Buffer as a byte sequence; append in place exempt from frame checks. Not decided: position-dependent facts that need a recursive sequence spec (e.g. the PPS count byte of a record with >= 32 PPS) - only covered by the bounded lemmas.",
+   note="Trusted: govc, go/ssa, solvers; bytes.Buffer as a byte sequence. Not decided: position-dependent facts that need a recursive sequence spec (e.g. the PPS count byte of a record with >= 32 PPS) - only covered by the bounded lemmas.",
    design="7/C12"),
  "C10": dict(
    text="Layout contracts (FLV v10 E.4.2.1 / E.4.3.1 plus the documented Opus extension) on the real audio/video packagers, both directions, over the full field ranges; four round-trip lemmas (frame->bytes->frame and bytes->frame->bytes, audio and video) proved from the contracts for all payload lengths; rate-code tables.",
@@ -71,6 +71,31 @@ CLAIMED = {
    note="Trusted: the govc translation, go/ssa, the SMT solvers; errors.* constructors modelled (callers/fmt.Sprintf opaque); multi-frame concatenation follows by induction over the proved single-frame lemma (stated, not mechanised).",
    design="7/C11"),
 }
+# additions of the last build rounds (appended to the texts above)
+EXTRA_TEXT = {
+ "C01": " Also: the simple handshake readers return exactly the 1/1536/1536-byte blocks whatever the segmentation of the transport reads; a message written by WriteMessage has left the buffered writer (ghost 'flushed' of the bufio.Writer equals its length after every successful call, for every kind of message); a well-formed peer Set Chunk Size of any size from 1 is accepted.",
+ "C02": " Also: a well-formed Set Chunk Size message (4 bytes, any size from 1, top bit clear) is accepted by the reader.",
+ "C03": " Also under contract: the typed waits. ExpectMessage returns a message of a requested type and every message it read and skipped had none of the requested types (loop invariants over the real loops, ghost 'last message read'); ExpectPacket decodes every message it reads before reading the next (ghost call counters; reflection modelled opaquely; its frame is not specified). DecodeMessage hands the packet decoder the very bytes that selected the packet type (whole payload, or payload behind the AMF3 format byte): call-site clauses. WritePacket's own Set Chunk Size takes effect only after the announcement was written.",
+ "C04": " Also: DecodeMessage decodes the packet from the same bytes that were dispatched on (so a response whose transaction was consumed cannot then fail to decode because the decoder got other bytes).",
+ "C05": " Also: bounded lemmas for a container cut off before its end marker (rejected), an empty property name that is not the end marker, and the RTMP variant call packet's Size() never exceeding what was decoded.",
+ "C06": " Also: bounded lemmas for an empty property name followed by a value marker (a property, not the object end) and for repeated property names (both kept, re-marshalled as read).",
+ "C08": " Also: Cause stops at the transport's own error even when that error can itself be unwrapped further (bounded lemma over an error with an Unwrap method).",
+ "C12": " Also: a bounded lemma over a record with one SPS and one PPS of ANY size 1..65535 (symbolic sizes): every 16-bit length field is the size of the NAL unit behind it, contents in place; the same with two SPS and the full round trip in the thorough tier.",
+ "C13": " Receiving side: after the header of an accepted masked data frame the key held is the four octets in front of the payload and the key position is 0; the message reader advances the key position by the bytes it hands out and hands out exactly the payload octets XOR the key (server) or untouched (client), for all reads (maskBytes itself is a trusted model). NextWriter remembers exactly the writer it hands out (the compressor when one is wrapped around the message writer). Conn.WriteMessage is also verified for a client without active compression: it must go through the message writer (flushFrame's precondition 'extra only for a server' is checked at its call site).",
+ "C14": " Also: the reason text of every protocol error fits a control frame, so the 1002 Close is sendable (call-site precondition at each of the ten call sites, strconv results bounded); a new connection's read buffer holds the largest control-frame payload and every Peek of the frame reader fits the buffer (obligation safe.peek-fits instead of the earlier assumption); a clean EOF is never reported for a message cut between its fragments, also when the transport delivers the last bytes of a non-final frame together with io.EOF (genuine defect found by this clause after the bufio model was corrected, fixed by 212af44).",
+ "C18": " Also: after Switch(w) the trace, warn and error loggers are new loggers writing to w (ghost writer of log.New), whatever was installed or closed before.",
+ "C20": " Also: the value of the average: (latest counter reading - baseline) * 1000 / whole milliseconds since the baseline, 0 while there is no baseline, no increase or no elapsed millisecond (ghost 'last reading' of the arbitrary source).",
+}
+EXTRA_NOTE = {
+ "C03": " ExpectPacket: 'noframe' (what it may modify is not specified or checked; nothing may call it by contract).",
+ "C12": " Append growing in place is now frame-checked (owner rule: x.f = append(x.f, ...) is covered by the permission to assign x.f).",
+ "C13": " ASSUMED additionally: the compressor constructor is an arbitrary user-supplied function (NextWriter).",
+ "C14": " The earlier assumption about writes through a slice of the mask-key array is gone (array fields are first-class now). Trusted additionally: SetCloseHandler/SetPingHandler/SetPongHandler assign only their own handler field (they store closures, outside the subset).",
+}
+for k, v in EXTRA_TEXT.items():
+    CLAIMED[k]["text"] += v
+for k, v in EXTRA_NOTE.items():
+    CLAIMED[k]["note"] += v
 NOT_YET = "check not built yet in this session (claimed in DESIGN.md section 7; will move to checks when its contracts discharge)"
 NA = {
  "C16": "cryptographic tamper-resistance and JSON/big-int round trips live inside crypto/*, encoding/json, math/big: no first-order contract within reach decides them (DESIGN 7/C16); the panic-freedom part is under C07",
